@@ -721,6 +721,65 @@ def np_argmin(ex, st, args, kwargs):
     return L.np_argext(args[0], _axis(args, kwargs), V.lt)
 
 
+def _fresh_perm(ex, st, n, tag):
+    p = [z3.Int("%s!%d_%d" % (tag, V.fresh_id(), i)) for i in range(n)]
+    for x in p:
+        st.pc.append(z3.And(x >= 0, x < n))
+    if n > 1:
+        st.pc.append(z3.Distinct(*p))
+    return p
+
+
+def _sel(vals, idx):
+    r = vals[-1]
+    for i in range(len(vals) - 2, -1, -1):
+        r = V.ite(V.eq(idx, i), vals[i], r)
+    return r
+
+
+def np_argsort(ex, st, args, kwargs):
+    """np.argsort of a 1-D array: the permutation that sorts ascending, ties by position.  (numpy's default sort is
+    not stable for all sizes; for the tiny arrays of VOPy's uses insertion sort is used, which is stable.)"""
+    a = L.as_arr(args[0])
+    if a.ndim != 1 or kwargs:
+        raise Unsupported("argsort of non-1-D / with options")
+    c = concrete_fallback("numpy.argsort", args, kwargs)
+    if c is not _SYM:
+        return c
+    n = a.shape[0]
+    L.used("numpy.argsort: ascending permutation, ties in original order (small arrays)")
+    p = _fresh_perm(ex, st, n, "argsort")
+    vals = a.flat()
+    for i in range(n - 1):
+        x, y = _sel(vals, p[i]), _sel(vals, p[i + 1])
+        st.pc.append(z3.And(V.Z(V.le(x, y)), z3.Implies(V.Z(V.eq(x, y)), p[i] < p[i + 1])))
+    return L.mk(p, (n,), "i")
+
+
+def np_argpartition(ex, st, args, kwargs):
+    """np.argpartition(a, kth): a permutation with a[p[kth]] in its sorted position, no smaller element after it and
+    no larger before it (the order inside the two parts is unspecified)."""
+    a = L.as_arr(args[0])
+    kth = args[1]
+    if a.ndim != 1 or not isinstance(kth, int):
+        raise Unsupported("argpartition shape / kth")
+    n = a.shape[0]
+    if not (-n <= kth < n):
+        ex.ctx.obligation("no-raise:ValueError(argpartition kth out of bounds)", False)
+        raise _sx().PathDead("kth")
+    k = kth % n
+    L.used("numpy.argpartition: elements before position kth are <= a[p[kth]] <= elements after it")
+    p = _fresh_perm(ex, st, n, "argpart")
+    vals = a.flat()
+    piv = _sel(vals, p[k])
+    for i in range(n):
+        if i < k:
+            st.pc.append(V.Z(V.le(_sel(vals, p[i]), piv)))
+        elif i > k:
+            st.pc.append(V.Z(V.ge(_sel(vals, p[i]), piv)))
+    return L.mk(p, (n,), "i")
+
+
 def np_sqrt(ex, st, args, kwargs):
     return L.map_scalar_or_arr(L.sqrt_scalar, args[0])
 
@@ -1051,6 +1110,8 @@ NP.update({"torch.tensor": t_tensor, "torch.cat": t_cat, "torch.stack": t_stack,
            "torch.eye": t_eye, "torch.unique": t_unique, "torch.einsum": t_einsum})
 NP["scipy.optimize.minimize"] = sp_minimize
 NP["sklearn.metrics.pairwise.euclidean_distances"] = sk_euclidean
+NP["numpy.argsort"] = np_argsort
+NP["numpy.argpartition"] = np_argpartition
 NP["itertools.product"] = it_product
 NP["itertools.combinations"] = it_combinations
 
